@@ -1,3 +1,4 @@
+-- FAMILY: C09
 /-
   Driver.C09.handler — a distributed answer equals the single-node answer.
 
@@ -11,10 +12,15 @@
   K (model ∋ impl): whenever the implementation SCATTERS (Concat / TwoPhase / TopN over table T) the model of the capability
     check admits exactly that shape over T (`IQE.Engine.DistPlan.scatterShape T plan = some shape`) — the shapes for which
     the decomposition theorems of IQE.Props.C09 apply; a gather is always admissible.
-  Attribution (known findings, mirrored by deviation switches of `Dev`; a failing case is attributed only if EVERY failing
-    run is predicted by the model with exactly that switch on; the model with all switches off satisfies O by construction):
-    C09-F1 `localEmptyNoSchema`   Concat / TopN, no ACTIVE shard is remote, and the initiator's own fragment returns no
-                                  row: merge() has no batch to take a schema from ("no shard returned a schema").
+  Attribution (a failing case is attributed only if EVERY failing run is explained; F2 / F3 are mirrored exactly by deviation
+    switches of `Dev` — tags dev:F*:hit / miss / spurious measure the mirror —, the others by signature + neutraliser; the model
+    with all switches off predicts no failure, i.e. satisfies O by construction):
+    C09-F1 (signature `localEmptyNoSchema` + neutraliser) Concat / TopN, no ACTIVE shard is remote, and the statement's select
+                                  block has no row (or TopN keeps 0 rows): merge() has no batch to take a schema from ("no shard
+                                  returned a schema") when the initiator's own fragment ships NO batch — whether an empty result
+                                  comes as no batch or as one empty batch depends on the operators, so the signature is
+                                  necessary, not sufficient (tags sig:F1:hit / nofail); neutraliser where the initiator holds a
+                                  shard: the same cluster with the initiator holding none answers like the single-node run.
     C09-F2 `havingFreshAggregate` TwoPhase with an aggregate inside IN (…) / BETWEEN of HAVING: the rewriter gives every
                                   occurrence of an aggregate a fresh alias, so the merge query's HAVING aggregate is not in its
                                   SELECT list, which the local engine cannot evaluate inside IN / BETWEEN.
@@ -22,9 +28,11 @@
                                   the words inside '…' as identifiers and raises Internal (no gather fallback).
     C09-F4 (signature + neutraliser) the gather path under-gathers (C45-F1/F2): the same statement over a FULL gather of
                                   every table (harness neutraliser `neutral_fullgather`) gives the single-node answer.
-    C09-F5 (signature + neutraliser) the TwoPhase merge statement with >= 2 GROUP BY keys is answered wrongly by the local
-                                  engine (C03-F1, GroupKeyReduction's unique-key estimate over the partial table): the same
-                                  partial rows merged without that rule (`neutral_merge_nogkr`) give the single-node answer.
+    C09-F5 (signature + neutraliser) TwoPhase with >= 2 GROUP BY keys: a WORKER's partial GROUP BY merges groups — its shard
+                                  context reports the shard's row count with the whole table's `ndv_est`, so GroupKeyReduction's
+                                  gate `ndv_est >= row_count` (C03-F1) takes a non-unique key for unique and drops the other
+                                  keys; the same shards answered with that rule left out and merged by the unchanged merge
+                                  statement (`neutral_twophase_nogkr`) give the single-node answer.
     C09-F6 (signature + neutraliser) the statement's single-node outcome depends on the storage layout: single-node over
                                   IN-MEMORY tables (`neutral_mem1`) fails / answers exactly like the distributed run, whose
                                   gather and merge stages run over in-memory tables (a C04-class defect, not a split defect).
@@ -79,6 +87,12 @@ def peel : Query → (Option (Nat × Option Nat)) × List SortKey × Query
 def aggParts : Query → Option (Option Expr × List Expr × Nat)
   | .project _ es (.filter _ p (.agg keys _ _)) => some (some p, es, keys.length)
   | .project _ es (.agg keys _ _) => some (none, es, keys.length)
+  | _ => none
+
+/-- the aggregate node of an aggregated select block -/
+def aggNode : Query → Option Query
+  | .project _ _ (.filter _ _ (.agg keys aggs core)) => some (.agg keys aggs core)
+  | .project _ _ (.agg keys aggs core) => some (.agg keys aggs core)
   | _ => none
 
 mutual
@@ -151,7 +165,9 @@ def predictsError (dev : Dev) (c : Case) (d : DistInfo) : Bool :=
        (d.shape == "TopN" && (match lim with | some (skip, some fetch) => skip + fetch == 0 | _ => false)))) ||
   (match aggParts body with
    | some (having, es, nkeys) =>
-     (dev.havingFreshAggregate && (match having with | some p => aggUnderInBetween nkeys p | none => false)) ||
+     -- HAVING is evaluated per merged group: no group (no partial row at all), no evaluation, no error
+     (dev.havingFreshAggregate && (match having with | some p => aggUnderInBetween nkeys p | none => false) &&
+        (match (aggNode body).map (fun a => Spec.run fo fns c.tables a [] []) with | some (.ok t) => !t.isEmpty | _ => false)) ||
      (dev.closureReadsStrings && ((match having with | some p => anyE offendingLit p | none => false) || anyEL offendingLit es))
    | none => false)
 
@@ -256,7 +272,7 @@ def handler : Driver.Handler := fun cj i => do
       if sameAs c t0 t then none
       else
         let fullOk := okLike (neutralOf i "neutral_fullgather" k) t0
-        let mergeOk := okLike (neutralOf i "neutral_merge_nogkr" k) t0
+        let mergeOk := okLike (neutralOf i "neutral_twophase_nogkr" k) t0
         let memSame := match mem1O with | some (.ok tm) => sameAs c tm t | _ => false
         let attr :=
           if d.shape == "Gather" && fullOk && hasSubqueryOrCte c.plan then some "C09-F4"
@@ -285,7 +301,7 @@ def handler : Driver.Handler := fun cj i => do
       let pred := predictsError dev c d
       let obs := match o with | .err _ => (m.splitOn needle).length > 1 | _ => false
       if pred && obs then [s!"dev:{name}:hit"] else if obs then [s!"dev:{name}:miss"] else if pred then [s!"dev:{name}:spurious"] else []
-    mk "F1" { localEmptyNoSchema := true } "no shard returned a schema" ++
+    (mk "F1" { localEmptyNoSchema := true } "no shard returned a schema").map (fun t => (t.replace "dev:" "sig:").replace ":spurious" ":nofail") ++
     mk "F2" { havingFreshAggregate := true } "Expression not supported in filter: Aggregate" ++
     mk "F3" { closureReadsStrings := true } "distributed rewrite left"
   let allRight := labels.all (·.endsWith ":right")
